@@ -393,3 +393,41 @@ def encloses(eng, bounds, d):
 @spec
 def distinct_from(eng, o, vs):
     return all(v is not o for v in vs)
+
+
+# ------------------------------------------------------------------ lists of results (C13)
+from . import lists as LS
+
+
+@spec
+def llen(eng, o):
+    return SV(eng.lver_of(o).length, "int")
+
+
+@spec
+def lhas(eng, o, r):
+    e = r.rid if isinstance(r, LS.OptRid) else r.e
+    LS.register_rid(eng, e)
+    return SV(z3.Select(eng.lver_of(o).cnt, e) >= 1, "bool")
+
+
+@spec
+def lmin(eng, o):
+    return SV(LS.lmin(eng, eng.lver_of(o)), "real")
+
+
+@spec
+def best_ok(eng, o, *rest):
+    """best is None exactly when the collection is empty; otherwise an element with the smallest value"""
+    ver = eng.lver_of(o)
+    b = rest[0] if rest else eng.get_attr_raw(o, "best")
+    if b is None:
+        return SV(ver.length == 0, "bool")
+    if isinstance(b, SV) and b.t == "rid":
+        isnone, rid = z3.BoolVal(False), b.e
+    else:
+        isnone, rid = b.isnone, b.rid
+    LS.register_rid(eng, rid)
+    m = LS.lmin(eng, ver)
+    return SV(z3.And((ver.length == 0) == isnone,
+                     z3.Implies(z3.Not(isnone), z3.And(z3.Select(ver.cnt, rid) >= 1, LS.rval(rid) == m))), "bool")
